@@ -271,6 +271,23 @@ class HeapExec(DynExec):
                 dumps.add(ast.dump(nd) if nd is not None else id(p_))
             if len(dumps) == 1:
                 provs = provs[:1]
+        if len(provs) > 1 and all(isinstance(vars(p_)[name], types.FunctionType) for p_ in provs):
+            # dynamic dispatch on a receiver whose class is only known symbolically: one branch per provider, under the
+            # assumption that the receiver's class resolves the name to that provider
+            from . import models
+
+            def dispatch(ex_, self_val, args, kw, s, provs=tuple(provs)):
+                out = []
+                for p_ in provs:
+                    ks = [k for k in W.classes if provmap.get(k) is p_]
+                    s1 = s.fork()
+                    s1.assume(z3.Or(*[s1.objs[o.oid]['CLS'] == W.cls_const[k] for k in ks]))
+                    if not smt.feasible(s1.pc):
+                        continue
+                    q_ = '%s.%s.%s' % (p_.__module__, p_.__qualname__, name)
+                    out.extend(models.call_repo(ex_, q_, o, list(args), dict(kw), s1))
+                return out
+            return Func('dispatch.' + name, model=dispatch)
         if len(provs) != 1:
             raise OutsideSubset('method %s is provided by several classes for this receiver: %s'
                                 % (name, [p_.__name__ for p_ in provs]))
@@ -692,6 +709,10 @@ class HeapExec(DynExec):
     def site(self, kind, st, **bind):
         """a mutation site of the tree was reached on this path: emit the contract's obligations for that kind"""
         sites = getattr(self.contract, 'sites', None) if self.contract is not None else None
+        if not sites:
+            # inside a helper that is executed in place (insert_before, insert_after ...) the obligations are those of the
+            # function under verification
+            sites = getattr(getattr(self, 'top_contract', None), 'sites', None)
         if not sites:
             return
         n = st.ghost.get('__nsites__', 0)
